@@ -32,19 +32,31 @@ Proof.
     destruct (below_top (frames st) s0 && valid_ra r) eqn:G; [|discriminate]. split_and G.
     inversion Hr; subst. eexists; eexists. split; [reflexivity|]. split; [reflexivity|]. apply step_UCall; auto.
   - (* Plt *)
-    destruct (below_top (frames st) s0 && valid_ra r && negb (exc st)) eqn:G; [|discriminate]. split_and G.
-    apply negb_true_iff in G0.
-    destruct kd.
-    + inversion Hr; subst. eexists; eexists. split; [reflexivity|]. split; [reflexivity|]. apply step_Plt_plain; auto.
-    + destruct (flight st) eqn:Hfl; [discriminate|]. inversion Hr; subst.
-      eexists; eexists. split; [reflexivity|]. split; [reflexivity|]. apply step_Setjmp; auto.
-    + destruct (flight st) eqn:Hfl; [discriminate|].
-      destruct (assoc arg (jbt st)) as [[saved rsj]|] eqn:Ea; [|discriminate].
-      destruct (is_suffix saved (frames st)) eqn:Es; [|discriminate]. inversion Hr; subst.
-      destruct (step_Longjmp st s k s0 r arg saved rsj H G0 G G1 Ea Es) as [s2 [A [B C]]].
-      rewrite A, B. eexists; eexists. split; [reflexivity|]. split; [simpl; rewrite !N.eqb_refl; reflexivity|exact C].
-    + inversion Hr; subst. eexists; eexists. split; [reflexivity|]. split; [reflexivity|]. apply step_Plt_plain; auto.
-    + discriminate.
+    destruct (below_top (frames st) s0 && valid_ra r && exc st) eqn:Gx.
+    + (* library call from a landing pad *)
+      split_and Gx.
+      assert (Hk : (kd = KNone \/ kd = KFlush) /\
+                   (extra st =? 0) && forallb (fun x => x <=? s0) (stale st) = true /\
+                   st' = bump (mk st (fresh st s0 r [true] :: frames st) true false 1 []) /\ e = None).
+      { destruct kd; try discriminate;
+          (destruct ((extra st =? 0) && forallb (fun x => x <=? s0) (stale st)) eqn:G2; [|discriminate]);
+          inversion Hr; subst; auto. }
+      destruct Hk as [Hk [G2 [Est Ee]]]. subst st' e. split_and G2. apply N.eqb_eq in G2.
+      eexists; eexists. split; [|split; [reflexivity|apply (step_Plt_exc st s kd k s0 r arg); auto; apply forallb_le; assumption]].
+      destruct Hk as [Hk|Hk]; subst kd; reflexivity.
+    + destruct (below_top (frames st) s0 && valid_ra r && negb (exc st)) eqn:G; [|discriminate]. split_and G.
+      apply negb_true_iff in G0.
+      destruct kd.
+      * inversion Hr; subst. eexists; eexists. split; [reflexivity|]. split; [reflexivity|]. apply step_Plt_plain; auto.
+      * destruct (flight st) eqn:Hfl; [discriminate|]. inversion Hr; subst.
+        eexists; eexists. split; [reflexivity|]. split; [reflexivity|]. apply step_Setjmp; auto.
+      * destruct (flight st) eqn:Hfl; [discriminate|].
+        destruct (assoc arg (jbt st)) as [[saved rsj]|] eqn:Ea; [|discriminate].
+        destruct (is_suffix saved (frames st)) eqn:Es; [|discriminate]. inversion Hr; subst.
+        destruct (step_Longjmp st s k s0 r arg saved rsj H G0 G G1 Ea Es) as [s2 [A [B C]]].
+        rewrite A, B. eexists; eexists. split; [reflexivity|]. split; [simpl; rewrite !N.eqb_refl; reflexivity|exact C].
+      * inversion Hr; subst. eexists; eexists. split; [reflexivity|]. split; [reflexivity|]. apply step_Plt_plain; auto.
+      * discriminate.
   - (* TPlt *)
     destruct (frames st) as [|f rest] eqn:HF; [discriminate|].
     destruct ((f_slot f =? s0) && negb (exc st) && (negb (flight st) || (0 <? extra st)) && all_homogeneous true (f_pend f)) eqn:G; [|discriminate].
@@ -67,10 +79,10 @@ Proof.
     destruct (exc st && (extra st =? 0)) eqn:G; [|discriminate]. split_and G. apply N.eqb_eq in G0.
     inversion Hr; subst. eexists; eexists. split; [reflexivity|]. split; [reflexivity|]. apply (step_Unwind st s f rest); auto.
   - (* Resume *)
-    destruct (flight st && below_top (frames st) s0 && valid_ra r && (extra st =? 0) && negb (mem_N s0 (stale st))) eqn:G; [|discriminate].
-    split_and G. apply N.eqb_eq in G1. apply negb_true_iff in G0. inversion Hr; subst.
-    destruct (step_Resume st s s0 r H G G3 G2 G1 G0) as [A B].
-    eexists; eexists. split; [reflexivity|]. split; [unfold ok_obs; cbn [o_target o_pops]; cbv zeta in A; rewrite A, N.eqb_refl; reflexivity|exact B].
+    destruct (flight st && below_top (frames st) s0 && valid_ra r && (extra st =? 0) && forallb (fun x => x <=? s0) (stale st)) eqn:G; [|discriminate].
+    split_and G. apply N.eqb_eq in G1. inversion Hr; subst.
+    destruct (step_Resume st s s0 r H G G3 G2 G1 (forallb_le _ _ G0)) as [A B].
+    eexists; eexists. split; [reflexivity|]. split; [unfold ok_obs; cbn [o_target o_pops]; rewrite A, N.eqb_refl; reflexivity|exact B].
   - (* Catch *)
     destruct (frames st) as [|f rest] eqn:HF; [discriminate|].
     destruct ((fa + 1 =? f_slot f) && exc st && (extra st =? 0)) eqn:G; [|discriminate]. split_and G.
